@@ -783,6 +783,8 @@ static void run_part(const GIn& g, int ver, uint64_t a, uint64_t b,
         in.path(), NR(gg::FileGraph::iterator(a), gg::FileGraph::iterator(b)),
         ER(gg::FileGraph::edge_iterator(es), gg::FileGraph::edge_iterator(ee)));
     if (containsNodeOnly) {
+      if (a > 0 && b > a)
+        sx::mark_nontrivial(); // a part that does not start at node 0
       // "Checks if a node is in the graph".  Accept the argument being a
       // global id (a <= x < b) or a local one (x < b-a).
       bool okGlobal = true, okLocal = true;
@@ -803,8 +805,6 @@ static void run_part(const GIn& g, int ver, uint64_t a, uint64_t b,
              (unsigned long long)a, (unsigned long long)b,
              (unsigned long long)(b - a));
       h = sx::mix(h, sx::hash_str(seen));
-      if (a > 0 && b > a)
-        proper = true;
       continue;
     }
     if (fg.size() != b - a)
@@ -1068,13 +1068,18 @@ static void run_buffered_part(const GIn& g, uint64_t a, uint64_t b) {
 typedef std::function<void(const GIn&, int wi, int var, bool thorough)> Body;
 typedef std::function<std::string(int var, bool thorough)> VDesc;
 
+// quickBoundsAlways: use the quick tier's input bounds in both tiers
 static sx::EnumCase make_case(const std::string& name,
                               std::function<int(bool)> nvar, Body body,
-                              VDesc vdesc) {
+                              VDesc vdesc, bool quickBoundsAlways = false) {
   sx::EnumCase c;
   c.name  = name;
-  c.count = [nvar](bool th) { return graph_count(th) * 3 * nvar(th); };
-  c.run   = [nvar, body](uint64_t idx, bool th) {
+  c.count = [nvar, quickBoundsAlways](bool th) {
+    th = th && !quickBoundsAlways;
+    return graph_count(th) * 3 * nvar(th);
+  };
+  c.run = [nvar, body, quickBoundsAlways](uint64_t idx, bool th) {
+    th      = th && !quickBoundsAlways;
     int nv  = nvar(th);
     int var = (int)(idx % nv);
     idx /= nv;
@@ -1083,7 +1088,8 @@ static sx::EnumCase make_case(const std::string& name,
     GIn g = graph_at(idx, th);
     body(g, wi, var, th);
   };
-  c.describe = [nvar, vdesc](uint64_t idx, bool th) {
+  c.describe = [nvar, vdesc, quickBoundsAlways](uint64_t idx, bool th) {
+    th      = th && !quickBoundsAlways;
     int nv  = nvar(th);
     int var = (int)(idx % nv);
     idx /= nv;
@@ -1157,7 +1163,7 @@ int main(int argc, char** argv) {
           range_at(r, max_n(th), a, b);
           DISPATCH(wi, run_part<T>(g, ver, a, b, true));
         },
-        range_str));
+        range_str, /*quickBoundsAlways=*/true));
     en.push_back(make_case(
         "read " + V + ": OfflineGraph", fixed(1),
         [ver](const GIn& g, int wi, int, bool) {
@@ -1183,5 +1189,15 @@ int main(int argc, char** argv) {
         DISPATCH(wi, run_buffered_part<T>(g, a, b));
       },
       range_str));
+  // share of the deadline per case, roughly proportional to measured cost
+  static const struct {
+    const char* frag;
+    int weight;
+  } WEIGHTS[] = {{"loaded/copied/moved", 4}, {"write v2", 8},
+                 {"fromFile /", 4},          {"every node range", 5}};
+  for (auto& c : en)
+    for (auto& w : WEIGHTS)
+      if (c.name.find(w.frag) != std::string::npos)
+        c.weight = w.weight; // later entries override earlier ones
   return sx::sx_main(argc, argv, "C12", {}, en);
 }
